@@ -155,6 +155,9 @@ fn str_lit(s: &str) -> String {
             '\n' => o.push_str("\\n"),
             '\t' => o.push_str("\\t"),
             '\r' => o.push_str("\\r"),
+            c if (c as u32) < 0x20 || matches!(c as u32, 0x7f..=0xa0 | 0x1680 | 0x2000..=0x200f | 0x2028..=0x202f | 0x205f | 0x3000 | 0xfeff) => {
+                o.push_str(&format!("\\u{{{:x}}}", c as u32))
+            }
             c => o.push(c),
         }
     }
@@ -1273,6 +1276,81 @@ fn gen_case(rng: &mut Rng, which: usize, max_len: usize) -> Case {
                 _ => mk("rsplit", vec![A::V(V::Str(t)), A::V(V::Str(sep)), A::V(lim)]),
             }
         }
+        51 => {
+            // LONG inputs (33..=max) with ==-equal but distinguishable values, for everything order-sensitive
+            let hi = if max_len > 8 { 200 } else { 120 };
+            let n = match rng.below(4) {
+                0 => 33 + rng.below(4) as usize,
+                1 => 60 + rng.below(10) as usize,
+                _ => 33 + rng.below(hi - 32) as usize,
+            };
+            let nums = rng.chance(3, 4);
+            let xs: Vec<V> = (0..n)
+                .map(|_| {
+                    if nums {
+                        match rng.below(9) {
+                            0 | 1 => V::Int(1),
+                            2 => V::Flt(2),
+                            3 => V::Rat(2),
+                            4 => V::Int(2),
+                            5 => V::Flt(4),
+                            6 => V::Rat(3),
+                            7 => V::Flt(3),
+                            _ => V::Int(rng.range(0, 4)),
+                        }
+                    } else {
+                        match rng.below(5) {
+                            0 => V::List(vec![V::Int(1)]),
+                            1 => V::List(vec![V::Flt(2)]),
+                            2 => V::List(vec![V::Int(1), V::Flt(4)]),
+                            3 => V::List(vec![V::Rat(2), V::Int(2)]),
+                            _ => V::List(vec![V::Int(rng.range(0, 2))]),
+                        }
+                    }
+                })
+                .collect();
+            let sq = match rng.below(5) {
+                0 => V::Stream(xs, 0),
+                1 => V::Stream(xs, 2 + rng.below(5) as u32),
+                _ => V::List(xs),
+            };
+            let sa = A::V(sq);
+            match rng.below(10) {
+                0 | 1 | 2 => mk("sort", vec![sa]),
+                3 => mk("sort", vec![sa, A::F(*rng.pick(&["cmp", "rcmp", "b0"]), None)]),
+                4 => mk("sort_on", vec![sa, A::F(*rng.pick(&["id", "k0", "wrap"]), None)]),
+                5 => mk("unique", vec![sa]),
+                6 => mk("group", vec![sa]),
+                7 => mk(*rng.pick(&["min", "max"]), vec![sa]),
+                8 => mk("frequencies", vec![sa]),
+                _ => mk(*rng.pick(&["min", "max"]), vec![sa, A::F(*rng.pick(&["cmp", "rcmp"]), None)]),
+            }
+        }
+        52 => {
+            // text builtins over an alphabet with every Unicode whitespace and the ASCII control blanks
+            const WS: &[char] = &[
+                ' ', '\t', '\n', '\r', '\u{b}', '\u{c}', '\u{85}', '\u{a0}', '\u{1680}', '\u{2000}', '\u{2003}', '\u{200a}',
+                '\u{2028}', '\u{2029}', '\u{202f}', '\u{205f}', '\u{3000}',
+            ];
+            const NOT_WS: &[char] = &['a', 'b', 'é', '\u{200b}', '\u{feff}', '\u{1c}', '\u{1f}', '\u{180e}', 'x', ','];
+            let n = gen_len(rng, 10);
+            let t: String = (0..n).map(|_| if rng.chance(1, 2) { *rng.pick(WS) } else { *rng.pick(NOT_WS) }).collect();
+            match rng.below(8) {
+                0 | 1 | 2 => mk("words", vec![A::V(V::Str(t))]),
+                3 => mk("lines", vec![A::V(V::Str(t))]),
+                4 => mk(*rng.pick(&["strip", "trim", "strip_start", "trim_start", "strip_end", "trim_end"]), vec![A::V(V::Str(t))]),
+                5 => mk("is_space", vec![A::V(V::Str(t))]),
+                6 => {
+                    let sep = rng.pick(WS).to_string();
+                    mk("split", vec![A::V(V::Str(t)), A::V(V::Str(sep))])
+                }
+                _ => {
+                    let sep = rng.pick(WS).to_string();
+                    let pieces: Vec<V> = t.chars().map(|c| V::Str(c.to_string())).collect();
+                    mk("join", vec![A::V(V::List(pieces)), A::V(V::Str(sep))])
+                }
+            }
+        }
         _ => {
             // merge of 2-4 dictionaries, optionally with a combining function; call or chained form
             let m = 2 + rng.below(3) as usize;
@@ -1308,7 +1386,7 @@ fn gen_case(rng: &mut Rng, which: usize, max_len: usize) -> Case {
         }
     }
 }
-const N_FAMILIES: usize = 51;
+const N_FAMILIES: usize = 53;
 
 /// hand-picked boundary cases (past findings first)
 fn corpus() -> Vec<Case> {
@@ -1327,6 +1405,8 @@ fn corpus() -> Vec<Case> {
         mk("filter", vec![A::V(V::Stream(vec![V::Int(3), V::Int(1)], 2 + 3)), A::F("k1", None)]),
         mk("unique", vec![A::V(V::Stream(vec![V::Str("a".into()), V::Str("b".into())], 2 + 4 + 5))]),
         mk("suffixes", vec![A::V(V::Stream(vec![V::Int(0), V::Int(2)], 2 + 1 + 15 + 20))]),
+        // Unicode whitespace (seeded change C13-b5)
+        mk("words", vec![A::V(V::Str("a\u{b}b\u{85}c\u{a0}d\u{2003}e\u{3000}f\u{200b}g".into()))]),
         // early exit of any / all in the call forms that reach run2 (seeded change C13-a4)
         Case { name: "any", args: vec![A::V(V::List(vec![V::Int(1), V::Str("a".into())])), A::F("lt", Some(V::Int(5)))], sorted: false, chain: None, form: 1, counted: false },
         Case { name: "all", args: vec![A::V(V::List(vec![V::Int(9), V::Str("a".into())])), A::F("lt", Some(V::Int(5)))], sorted: false, chain: None, form: 3, counted: false },
